@@ -153,7 +153,7 @@ def run_instance(inst):
             tags.append('complete')
         return tags
 
-    logic = runner.lra_engine(10000) if cfg.fam != 'dist' else runner.lra_engine(10000)
+    logic = runner.lra_engine(10000) if cfg.fam != 'dist' else runner.nra_engine(10000)
     if len(inst) > 4 and inst[4] == 'split':
         shims.uninstall()
         return dict(name=iname, prefixes=runner.split(logic, scenario, SPLIT_DEPTH), inst=inst[:4])
